@@ -180,6 +180,8 @@ def typed_writes(w: Walker, repo: Repo) -> List[TypedWrite]:
         return cached
     out: List[TypedWrite] = []
     for fi in repo.all_functions():
+        if w.transparent(fi.qualname):
+            continue        # effects of a later-extracted helper show up (inlined) in its callers
         try:
             s = w.summary(fi.qualname, 0)
         except Exception:
